@@ -505,3 +505,27 @@ def epilogue(ctx):
     if broken and not ctx.violations:
         ctx.violation('proof obligations no longer check: ' + '; '.join(o['name'] for o in broken),
                       dict(kind='obligations', obligations=broken), found_input=False)
+
+
+# ---------------------------------------------------------------- known-finding signatures shared by several checks
+import re as _re
+
+_IP6 = _re.compile(r'\(ip 6 (\d+) (\d+)\)')
+_DT = _re.compile(r'\(dt (-?\d+)\)')
+
+
+def has_4in6(text):
+    """F30: an IPv4-mapped IPv6 address occurs in the case"""
+    for m in _IP6.finditer(text):
+        a = int(m.group(1))
+        if 0xffff00000000 <= a <= 0xffffffffffff:
+            return True
+    return False
+
+
+def has_first_day_datetime(text):
+    """F27: a datetime in the first 86 400 000 ms of the int64 range occurs in the case"""
+    for m in _DT.finditer(text):
+        if int(m.group(1)) < -2 ** 63 + 86400000:
+            return True
+    return False
